@@ -15,20 +15,23 @@ EXTENDS Integers, Sequences
 
 MaxFields == 36
 
-UpperOf(c) ==
-  CASE c = "a" -> "A" [] c = "d" -> "D" [] c = "f" -> "F" [] c = "h" -> "H" [] c = "i" -> "I"
-    [] c = "m" -> "M" [] c = "n" -> "N" [] c = "o" -> "O" [] c = "p" -> "P" [] c = "s" -> "S"
-    [] c = "t" -> "T" [] c = "w" -> "W" [] c = "y" -> "Y" [] c = "b" -> "B" [] c = "c" -> "C"
-    [] c = "e" -> "E" [] c = "g" -> "G" [] c = "j" -> "J" [] c = "k" -> "K" [] c = "l" -> "L"
-    [] c = "q" -> "Q" [] c = "r" -> "R" [] c = "u" -> "U" [] c = "v" -> "V" [] c = "x" -> "X"
-    [] c = "z" -> "Z" [] OTHER -> c
+LowerLetters == <<"a", "b", "c", "d", "e", "f", "g", "h", "i", "j", "k", "l", "m", "n", "o", "p", "q", "r", "s", "t",
+                  "u", "v", "w", "x", "y", "z">>
+UpperLetters == <<"A", "B", "C", "D", "E", "F", "G", "H", "I", "J", "K", "L", "M", "N", "O", "P", "Q", "R", "S", "T",
+                  "U", "V", "W", "X", "Y", "Z">>
+\* lookup tables (constant definitions: TLC builds them once)
+UpperTab == [c \in {LowerLetters[k] : k \in 1..26} |-> UpperLetters[CHOOSE k \in 1..26 : LowerLetters[k] = c]]
+UpperOf(c) == IF c \in DOMAIN UpperTab THEN UpperTab[c] ELSE c
 IsLower(c) == UpperOf(c) # c
 Chars(str) == [i \in 1..Len(str) |-> SubSeq(str, i, i)]
 
-\* does picture p contain, at position i, the word w (upper-case letters / symbols) ignoring case?
-MatchCI(p, i, w) ==
-  /\ i + Len(w) - 1 <= Len(p)
-  /\ \A k \in 1..Len(w) : UpperOf(p[i + k - 1]) = w[k]
+Upper(p) == [k \in 1..Len(p) |-> UpperOf(p[k])]
+\* does the upper-cased picture U contain the word w at position i?
+MatchAt(U, i, w) ==
+  /\ i + Len(w) - 1 <= Len(U)
+  /\ \A k \in 1..Len(w) : U[i + k - 1] = w[k]
+\* does picture p contain, at position i, the word w (upper case) ignoring case?
+MatchCI(p, i, w) == MatchAt(Upper(p), i, w)
 
 \* documented token spellings (upper case), longest first where one is a prefix of another
 Spellings == <<
@@ -57,19 +60,25 @@ AmPmStyle(p, i, dotted) ==
 RECURSIVE BlankRun(_, _)
 BlankRun(p, i) == IF i <= Len(p) /\ p[i] = " " THEN 1 + BlankRun(p, i + 1) ELSE 0
 
+\* spellings by first letter, in table order (longer spellings first among those sharing a prefix)
+FirstLetters == {Spellings[k][1][1] : k \in 1..Len(Spellings)}
+ByFirst == [c \in FirstLetters |-> SelectSeq([k \in 1..Len(Spellings) |-> k], LAMBDA k : Spellings[k][1][1] = c)]
 \* index of the longest documented spelling matching at i (0 if none)
-RECURSIVE BestFrom(_, _, _, _)
-BestFrom(p, i, k, best) ==
-  IF k > Len(Spellings) THEN best
-  ELSE IF MatchCI(p, i, Spellings[k][1]) /\ (best = 0 \/ Len(Spellings[k][1]) > Len(Spellings[best][1]))
-       THEN BestFrom(p, i, k + 1, k) ELSE BestFrom(p, i, k + 1, best)
+RECURSIVE BestIn(_, _, _, _, _)
+BestIn(U, i, cands, j, best) ==
+  IF j > Len(cands) THEN best
+  ELSE LET k == cands[j] IN
+       IF MatchAt(U, i, Spellings[k][1]) /\ (best = 0 \/ Len(Spellings[k][1]) > Len(Spellings[best][1]))
+       THEN BestIn(U, i, cands, j + 1, k) ELSE BestIn(U, i, cands, j + 1, best)
+BestFrom(U, i) == IF U[i] \in FirstLetters THEN BestIn(U, i, ByFirst[U[i]], 1, 0) ELSE 0
 
 \* <<token, length>> at position i (token <<"none", 0>> if no documented token starts here)
-TokenAt(p, i) ==
+TokenAt(p, U, i) ==
   IF p[i] = " " THEN LET n == BlankRun(p, i) IN << <<"blank", n>>, n>>
   ELSE IF p[i] \in Punct THEN << <<"lit", p[i]>>, 1>>
-  ELSE IF p[i] = "T" THEN << <<"lit", "T">>, 1>>          \* the literal T (upper case only)
-  ELSE LET b == BestFrom(p, i, 1, 0) IN
+  ELSE IF p[i] = "T" THEN << <<"lit", "T">>, 1>>          \* the literal T
+  ELSE IF p[i] = "t" THEN << <<"lit", "t">>, 1>>          \* lower-case t in token position: see Unjudged
+  ELSE LET b == BestFrom(U, i) IN
        IF b = 0 THEN << <<"none", 0>>, 0>>
        ELSE LET sp == Spellings[b]  kind == sp[2] IN
             << <<kind,
@@ -78,21 +87,24 @@ TokenAt(p, i) ==
                    [] OTHER -> sp[3]>>,
                Len(sp[1])>>
 
-RECURSIVE LexFrom(_, _)
+RECURSIVE LexFrom(_, _, _)
 \* token sequence of p from position i, or <<"invalid">> appended marker
-LexFrom(p, i) ==
+LexFrom(p, U, i) ==
   IF i > Len(p) THEN <<>>
-  ELSE LET t == TokenAt(p, i) IN
+  ELSE LET t == TokenAt(p, U, i) IN
        IF t[1][1] = "none" THEN << <<"invalid", 0>> >>
-       ELSE LET rest == LexFrom(p, i + t[2]) IN
+       ELSE LET rest == LexFrom(p, U, i + t[2]) IN
             IF Len(rest) > 0 /\ rest[Len(rest)][1] = "invalid" THEN << <<"invalid", 0>> >>
             ELSE <<t[1]>> \o rest
 
-Lex(p) == LexFrom(p, 1)
+Lex(p) == LET U == Upper(p) IN LexFrom(p, U, 1)
 IsInvalid(toks) == Len(toks) > 0 /\ toks[Len(toks)][1] = "invalid"
 \* C19: accepted exactly when it lexes into at most 36 tokens
 PicAccepted(p) == LET t == Lex(p) IN ~IsInvalid(t) /\ Len(t) <= MaxFields
-\* pictures whose verdict the property leaves open: a lower-case t (is 'T' a
-\* case-insensitive token or the literal?) - judged only for "no panic"
-Unjudged(p) == \E i \in 1..Len(p) : p[i] = "t"
+\* pictures whose verdict the property leaves open: a lower-case t standing where
+\* a token must start (is 'T' a case-insensitive token or only the literal?).
+\* They are judged only for "no panic"; a picture that is invalid for another
+\* reason, or too long, is rejected under either reading.
+Unjudged(p) == LET t == Lex(p) IN
+               ~IsInvalid(t) /\ Len(t) <= MaxFields /\ \E k \in 1..Len(t) : t[k] = <<"lit", "t">>
 =============================================================================
